@@ -445,6 +445,15 @@ func runConverge(r *vs.Rand, i int, seed uint64, out *vs.Out) {
 func runRollout(r *vs.Rand, i int, seed uint64, out *vs.Out, crash bool) {
 	cfg := rollingCfg(r)
 	replicas := 1 + r.Intn(4)
+	twoKeys := false // revision history over paths under two top-level fields: three revisions are to be alive at once
+	for _, fp := range cfg.FieldPaths {
+		if fp == "metadata.annotations" {
+			twoKeys = true
+		}
+	}
+	if twoKeys && replicas < 3 {
+		replicas = 3
+	}
 	hookMode := ""
 	if cfg.Finalize && r.Chance(75) {
 		// the finalize answer depends on the (revisioned) image: true only for the newer images, or only for the oldest one
@@ -478,6 +487,9 @@ func runRollout(r *vs.Rand, i int, seed uint64, out *vs.Out, crash bool) {
 	second := -1
 	if r.Chance(50) {
 		second = changeAt + 1 + r.Intn(2*replicas+1)
+	}
+	if twoKeys {
+		second = changeAt + 1 + r.Intn(2) // while the first revision still holds children
 	}
 	scaleTo := -1
 	if r.Chance(35) {
